@@ -169,7 +169,7 @@ var reserved = map[string]bool{
 	"if": true, "then": true, "else": true, "return": true, "forall": true, "exists": true, "Type": true, "Set": true, "Prop": true,
 	"Some": true, "None": true, "true": true, "false": true, "tt": true, "unit": true, "bool": true, "nat": true, "list": true,
 	"option": true, "byte": true, "bytes": true, "Z": true, "N": true, "S": true, "O": true, "error": true, "member": true,
-	"tr_": true, "k_": true, "st_": true, "brk_": true, "ret_": true, "rv_": true,
+	"tr_": true, "k_": true, "st_": true, "brk_": true, "ret_": true, "rv_": true, "heap_": true,
 }
 
 func (x *tr) ident(name string) string {
@@ -259,6 +259,9 @@ func (x *tr) coqType(t types.Type) string {
 			k, v := x.coqType(u.Key()), x.coqType(u.Elem())
 			if k == "Z" && v != "?" {
 				return "map " + paren(v) // association list keyed by Z; a receiver field is a gomap (nil-able)
+			}
+			if k == "bytes" && v != "?" {
+				return "mapB " + paren(v) // .. keyed by a string; a receiver field is a gomapB
 			}
 		}
 	}
@@ -452,9 +455,24 @@ func (x *tr) sliceVar(e ast.Expr) (string, bool) {
 
 // copyCall: copy(dst, src) where dst is a tracked slice V or V[a:]: V is rebound to its new contents
 // (a let hoisted in front of the statement, in evaluation order); the value is the count
+// letPair: bind (fresh, v) := term in front of the statement being assembled; the value is the fresh name
+func (x *tr) letPair(term, v string) string {
+	x.npend++
+	nm := fmt.Sprintf("r%d_", x.npend)
+	x.pending = append(x.pending, pend{name: "(" + nm + ", " + v + ")", term: term, let: true, names: []string{nm, v}})
+	x.bound[nm]++
+	x.bound[v]++
+	return nm
+}
+
 func (x *tr) copyCall(c *ast.CallExpr) string {
 	if len(c.Args) != 2 {
 		x.bad(c, "copy form")
+	}
+	if x.kindOf(c.Args[0]) == "hslice" && x.kindOf(c.Args[1]) == "hslice" {
+		// slices of heap cells: the copy writes into the array of dst (heap_ is rebound)
+		dst, src := x.expr(c.Args[0]), x.expr(c.Args[1])
+		return x.letPair(fmt.Sprintf("h_copy %s %s (h_read %s %s)", x.use("heap_"), paren(dst), x.use("heap_"), paren(src)), "heap_")
 	}
 	var v, from string
 	switch d := c.Args[0].(type) {
@@ -650,7 +668,7 @@ func (x *tr) nilTestOf(kind string, n ast.Node) string {
 		switch {
 		case kind == "error":
 			return "err_is_nil"
-		case strings.HasPrefix(kind, "option "), strings.HasPrefix(kind, "gomap "):
+		case strings.HasPrefix(kind, "option "), strings.HasPrefix(kind, "gomap "), strings.HasPrefix(kind, "gomapB "):
 			return "is_nil"
 		}
 		x.bad(n, "nil test on a value whose translation does not distinguish nil ("+kind+")")
@@ -675,10 +693,10 @@ func (x *tr) nilOf(kind string, n ast.Node) string {
 // fieldKind: the Coq type of a selector expression on the receiver (maps are nil-able gomaps there)
 func (x *tr) exprKind(e ast.Expr) string {
 	k := x.kindOf(e)
-	if strings.HasPrefix(k, "map ") {
+	if strings.HasPrefix(k, "map ") || strings.HasPrefix(k, "mapB ") {
 		if se, ok := e.(*ast.SelectorExpr); ok {
 			if id, ok := se.X.(*ast.Ident); ok && id.Name == x.recv {
-				return "gomap " + k[4:]
+				return "go" + k
 			}
 		}
 	}
@@ -744,7 +762,32 @@ func (x *tr) expr(e ast.Expr) string {
 			}
 		}
 		return x.use(sanitize(src(z)))
+	case *ast.UnaryExpr:
+		if cl, ok := z.X.(*ast.CompositeLit); ok && z.Op == token.AND && x.t.strict {
+			return x.expr(cl) // &T{..}: the value (a fresh object; nothing else refers to it)
+		}
+		switch z.Op {
+		case token.NOT:
+			return "(negb " + x.expr(z.X) + ")"
+		case token.SUB:
+			return "(- " + x.expr(z.X) + ")"
+		}
 	case *ast.CompositeLit:
+		if _, isStruct := x.p.TypesInfo.TypeOf(z).Underlying().(*types.Struct); x.t.strict && isStruct && x.kindOf(z) != "?" {
+			// T{a, b}: positional struct literal of a type the target maps to a tuple
+			var els []string
+			for _, e := range z.Elts {
+				if _, kv := e.(*ast.KeyValueExpr); kv {
+					x.bad(z, "keyed struct literal")
+				}
+				els = append(els, x.expr(e))
+			}
+			st := x.p.TypesInfo.TypeOf(z).Underlying().(*types.Struct)
+			if len(els) != st.NumFields() {
+				x.bad(z, "struct literal form")
+			}
+			return tuple(els)
+		}
 		if x.t.strict {
 			if _, isSlice := x.p.TypesInfo.TypeOf(z).Underlying().(*types.Slice); isSlice && strings.HasPrefix(x.kindOf(z), "list ") {
 				var els []string
@@ -761,13 +804,6 @@ func (x *tr) expr(e ast.Expr) string {
 		if nm, ok := x.deref(z); ok {
 			return x.use(nm)
 		}
-	case *ast.UnaryExpr:
-		switch z.Op {
-		case token.NOT:
-			return "(negb " + x.expr(z.X) + ")"
-		case token.SUB:
-			return "(- " + x.expr(z.X) + ")"
-		}
 	case *ast.BinaryExpr:
 		if src(z.Y) == "nil" && (z.Op == token.EQL || z.Op == token.NEQ) {
 			r := "(" + x.nilTestOf(x.exprKind(z.X), z) + " " + x.expr(z.X) + ")"
@@ -783,7 +819,7 @@ func (x *tr) expr(e ast.Expr) string {
 		if x.t.strict && k != x.kindOf(z.Y) {
 			x.bad(z, "operands of different translated types")
 		}
-		if x.t.strict && (z.Op == token.SHR || z.Op == token.SHL || z.Op == token.ADD || z.Op == token.SUB || z.Op == token.MUL) && k == "Z" {
+		if x.t.strict && (z.Op == token.SHR || z.Op == token.SHL || z.Op == token.ADD || z.Op == token.SUB || z.Op == token.MUL || z.Op == token.QUO) && k == "Z" {
 			// fixed-width arithmetic: + - << can wrap in Go, the translation is on Z.  Accepted on int / int64
 			// (unbounded by the convention of DESIGN.md 2.1); >> never wraps but needs a count >= 0
 			lt, _ := x.p.TypesInfo.TypeOf(z.X).Underlying().(*types.Basic)
@@ -800,6 +836,12 @@ func (x *tr) expr(e ast.Expr) string {
 				return "(Z.shiftr " + a + " " + b + ")"
 			case token.SHL:
 				x.bad(z, "left shift (can overflow)")
+			case token.QUO:
+				tv, isC := x.p.TypesInfo.Types[z.Y]
+				if !wide || !isC || tv.Value == nil || constant.Sign(tv.Value) <= 0 {
+					x.bad(z, "division other than of an int by a positive constant")
+				}
+				return "(Z.quot " + a + " " + b + ")" // Go truncates toward zero
 			default:
 				if !wide {
 					x.bad(z, "arithmetic on a fixed-width type narrower than int (can wrap)")
@@ -906,6 +948,13 @@ func (x *tr) expr(e ast.Expr) string {
 			return x.partial("str_slice " + paren(x.expr(z.X)) + " " + paren(x.expr(z.Low)) + " " + paren(x.expr(z.High)))
 		}
 	case *ast.IndexExpr:
+		if x.t.strict && strings.HasPrefix(x.kindOf(z.X), "list ") && x.kindOf(z.Index) == "Z" {
+			return x.partial("list_at " + paren(x.expr(z.X)) + " " + paren(x.expr(z.Index))) // panics outside 0..len-1
+		}
+		if mk := x.exprKind(z.X); x.t.strict && strings.HasPrefix(mk, "gomapB ") && x.kindOf(z.Index) == "bytes" {
+			// m[k] as a value: the zero value when k is missing (or the map nil)
+			return "(mapB_get_or " + x.expr(z.X) + " " + paren(x.expr(z.Index)) + " " + x.zeroOfKind(mk[7:], z) + ")"
+		}
 		if x.t.strict && x.kindOf(z.X) == "gslice" && x.kindOf(z.Index) == "Z" {
 			return x.partial("sl_at " + paren(x.expr(z.X)) + " " + paren(x.expr(z.Index)))
 		}
@@ -962,6 +1011,11 @@ func (x *tr) expr(e ast.Expr) string {
 					return x.partial("str_repeat " + paren(x.expr(z.Args[0])) + " " + paren(x.expr(z.Args[1])))
 				}
 			case "append":
+				if x.kindOf(z.Args[0]) == "hslice" && len(z.Args) == 2 && z.Ellipsis == token.NoPos {
+					// on heap cells append writes into the spare capacity of the SAME array when there is some
+					a, e := x.expr(z.Args[0]), x.expr(z.Args[1])
+					return x.letPair(fmt.Sprintf("h_append %s %s %s %s", x.use("f_growcap"), x.use("heap_"), paren(a), paren(e)), "heap_")
+				}
 				// append(a, b...) / append(a, x, y): the value; the translation has no aliasing to lose
 				if k := x.kindOf(z.Args[0]); k == "bytes" && len(z.Args) >= 2 {
 					a := x.expr(z.Args[0])
@@ -1002,9 +1056,27 @@ func (x *tr) expr(e ast.Expr) string {
 				if len(z.Args) == 1 {
 					return "(to_lower " + x.expr(z.Args[0]) + ")"
 				}
+			case "make":
+				if x.kindOf(z) == "gslice" && len(z.Args) == 3 && x.kindOf(z.Args[1]) == "Z" && x.kindOf(z.Args[2]) == "Z" {
+					return x.partial("sl_make " + paren(x.expr(z.Args[1])) + " " + paren(x.expr(z.Args[2])))
+				}
+				if x.kindOf(z) == "hslice" && len(z.Args) == 2 && x.kindOf(z.Args[1]) == "Z" {
+					r := x.partial(fmt.Sprintf("h_make %s %s %s", x.use("heap_"), paren(x.expr(z.Args[1])), x.use("h_zero")))
+					return x.letPair(r, "heap_")
+				}
+				if _, isMap := x.p.TypesInfo.TypeOf(z).Underlying().(*types.Map); isMap && len(z.Args) == 1 {
+					if k := x.kindOf(z); strings.HasPrefix(k, "map ") {
+						return "(Some (@nil (Z * " + paren(k[4:]) + ")))" // a map value is never nil again; only a field can take it
+					} else if strings.HasPrefix(k, "mapB ") {
+						return "(Some (@nil (bytes * " + paren(k[5:]) + ")))"
+					}
+				}
 			case "copy":
 				return x.copyCall(z)
 			case "len", "cap":
+				if x.kindOf(z.Args[0]) == "hslice" && key == "len" {
+					return "(h_len " + x.expr(z.Args[0]) + ")"
+				}
 				if x.kindOf(z.Args[0]) == "gslice" {
 					return "(sl_" + key + " " + x.expr(z.Args[0]) + ")"
 				}
@@ -1203,6 +1275,8 @@ func (x *tr) zeroOfKind(k string, n ast.Node) string {
 		return "(@None " + paren(k[7:]) + ")"
 	case strings.HasPrefix(k, "gomap "):
 		return "(@None (list (Z * " + paren(k[6:]) + ")))"
+	case strings.HasPrefix(k, "gomapB "):
+		return "(@None (list (bytes * " + paren(k[7:]) + ")))"
 	}
 	x.bad(n, "zero value of a type outside the fragment ("+k+")")
 	return ""
@@ -1339,8 +1413,8 @@ func (x *tr) abrupt(stmts []ast.Stmt) bool {
 				case "panic", "os.Exit", "strings.Repeat", "copy":
 					found = true
 				default:
-					if cs, ok := x.t.calls[key]; ok && (cs.tail != "" || cs.partial) {
-						found = true
+					if cs, ok := x.t.calls[key]; ok && (cs.tail != "" || cs.partial || cs.bres) {
+						found = true // (a callee that can panic ends this function too)
 					}
 				}
 			case *ast.SliceExpr:
@@ -1433,6 +1507,9 @@ func (x *tr) effectCallWith(c *ast.CallExpr, cs callSpec, lhs []string, n ast.No
 			back := "let '" + patTuple(cs.sub) + " := st_ in "
 			if len(cs.sub) == 1 {
 				back = "let " + cs.sub[0] + " := st_ in "
+			}
+			if len(cs.sub) == 0 {
+				back = "" // an oracle without state of its own
 			}
 			resPat := "_"
 			if len(lhs) > 0 {
@@ -1775,6 +1852,10 @@ func (x *tr) seq(stmts []ast.Stmt, k func() string) string {
 					return x.effectCall(c, cs, nil, z, tail)
 				}
 				switch key {
+				case "copy":
+					mark := len(x.pending)
+					x.expr(c) // the count is dropped; the effect is the rebinding hoisted in front of the rest
+					return x.hoistStmt(mark, tail)
 				case "panic":
 					if x.t.panicFmt != "" && len(c.Args) == 1 && len(x.panics) == 0 && x.optLoop == 0 {
 						mark := len(x.pending)
@@ -1806,8 +1887,11 @@ func (x *tr) seq(stmts []ast.Stmt, k func() string) string {
 				if ix, ok := as.Rhs[0].(*ast.IndexExpr); ok {
 					return x.lookupIf(z, as, ix, rest, k)
 				}
-				if ta, ok := as.Rhs[0].(*ast.TypeAssertExpr); ok && x.t.strict {
-					return x.assertIf(z, as, ta, rest, k)
+				if ta, ok := as.Rhs[0].(*ast.TypeAssertExpr); ok && x.t.strict && as.Tok == token.DEFINE {
+					okn := src(as.Lhs[1])
+					if c := src(z.Cond); c == okn || c == "!"+okn {
+						return x.assertIf(z, as, ta, rest, k)
+					}
 				}
 			}
 			if x.t.strict {
@@ -1954,6 +2038,36 @@ func (x *tr) assignStrict(z *ast.AssignStmt, tail func() string) string {
 			}
 		}
 	}
+	if ta, ok := z.Rhs[0].(*ast.TypeAssertExpr); ok && len(z.Rhs) == 1 && len(z.Lhs) == 2 && ta.Type != nil &&
+		(z.Tok == token.ASSIGN || z.Tok == token.DEFINE) {
+		// v, ok = e.(T): the asserted value and true, or the zero value of T and false
+		st := types.TypeString(x.p.TypesInfo.TypeOf(ta.X), x.qual)
+		tt := types.TypeString(x.p.TypesInfo.TypeOf(ta.Type), x.qual)
+		tk := x.coqType(x.p.TypesInfo.TypeOf(ta.Type))
+		if tk == "?" || x.coqType(x.p.TypesInfo.TypeOf(ta.X)) == "?" {
+			x.bad(z, "type assertion between types the target does not map")
+		}
+		fn := x.use("as_" + sanitize(strings.TrimPrefix(tt, "*")) + "_of_" + sanitize(strings.TrimPrefix(st, "*")))
+		mark := len(x.pending)
+		e := x.expr(ta.X)
+		var names []string
+		for _, l := range z.Lhs {
+			if id, isId := l.(*ast.Ident); isId && id.Name == "_" {
+				names = append(names, "_")
+				continue
+			}
+			nm, _ := x.lhsName(l)
+			if z.Tok == token.ASSIGN {
+				x.use(nm)
+			}
+			x.stateWrite(l, nm)
+			names = append(names, nm)
+		}
+		zero := x.zeroOfKind(tk, z)
+		return x.hoistStmt(mark, func() string {
+			return x.letTuple(names, fmt.Sprintf("match %s %s with Some v_ => (v_, true) | None => (%s, false) end", fn, paren(e), zero), tail)
+		})
+	}
 	if len(z.Lhs) != len(z.Rhs) {
 		x.bad(z, "assignment form")
 	}
@@ -1986,6 +2100,15 @@ func (x *tr) assignStrict(z *ast.AssignStmt, tail func() string) string {
 					continue
 				}
 			}
+			// s.m[k] = v on a map field of the receiver that the target hands back: panics when the map is nil
+			if mk := x.exprKind(ie.X); strings.HasPrefix(mk, "gomapB ") && x.kindOf(ie.Index) == "bytes" {
+				nm, _ := x.lhsName(ie.X)
+				x.use(nm)
+				x.stateWrite(ie.X, nm)
+				names = append(names, nm)
+				vals = append(vals, x.partial(fmt.Sprintf("gomapB_set %s %s %s", nm, paren(x.expr(ie.Index)), paren(x.expr(z.Rhs[i])))))
+				continue
+			}
 			// m[i][k] = v on a package-level map of maps: panics when the row m[i] is missing (a nil map)
 			if inner, ok := ie.X.(*ast.IndexExpr); ok {
 				if name := x.pkgVar(inner.X); name != "" && x.kindOf(inner.Index) == "Z" && x.kindOf(ie.Index) == "Z" {
@@ -1995,6 +2118,12 @@ func (x *tr) assignStrict(z *ast.AssignStmt, tail func() string) string {
 					vals = append(vals, x.partial(fmt.Sprintf("map2_set %s %s %s %s", nm, paren(x.expr(inner.Index)), paren(x.expr(ie.Index)), paren(x.expr(z.Rhs[i])))))
 					continue
 				}
+			}
+			// v[i] = x on a slice of heap cells
+			if x.kindOf(ie.X) == "hslice" && x.kindOf(ie.Index) == "Z" {
+				names = append(names, "heap_")
+				vals = append(vals, x.partial(fmt.Sprintf("h_set %s %s %s %s", x.use("heap_"), paren(x.expr(ie.X)), paren(x.expr(ie.Index)), paren(x.expr(z.Rhs[i])))))
+				continue
 			}
 			// v[i] = c on a tracked byte slice
 			if v, ok := x.sliceVar(ie.X); ok && x.kindOf(ie.X) == "gslice" && x.kindOf(ie.Index) == "Z" && x.kindOf(z.Rhs[i]) == "Z" {
@@ -2012,7 +2141,7 @@ func (x *tr) assignStrict(z *ast.AssignStmt, tail func() string) string {
 		} else {
 			rhs = x.expr(z.Rhs[i])
 		}
-		if lk == "?" || (lk != rk && !(strings.HasPrefix(lk, "gomap ") && strings.HasPrefix(rk, "map "))) {
+		if lk == "?" || (lk != rk && !(strings.HasPrefix(lk, "gomap") && "go"+rk == lk)) {
 			x.bad(z, "assignment between different translated types ("+lk+" := "+rk+")")
 		}
 		switch z.Tok {
@@ -2110,6 +2239,8 @@ func (x *tr) lookupIf(z *ast.IfStmt, as *ast.AssignStmt, ix *ast.IndexExpr, rest
 		case pkgTable:
 		case strings.HasPrefix(mk, "gomap "):
 			look, m = "map_get", x.expr(ix.X)
+		case strings.HasPrefix(mk, "gomapB "):
+			look, m = "mapB_get", x.expr(ix.X)
 		case strings.HasPrefix(mk, "map "):
 			if _, isId := ix.X.(*ast.Ident); !isId {
 				x.bad(z, "lookup in something that is not a map of the fragment")
@@ -2119,7 +2250,7 @@ func (x *tr) lookupIf(z *ast.IfStmt, as *ast.AssignStmt, ix *ast.IndexExpr, rest
 			x.bad(z, "lookup in something that is not a map of the fragment")
 		}
 	}
-	if x.kindOf(ix.Index) == "bytes" {
+	if x.kindOf(ix.Index) == "bytes" && look == "lookupZ" {
 		look = "lookupB"
 	}
 	key := x.expr(ix.Index)
